@@ -2,6 +2,9 @@ module verif
 
 go 1.23
 
-require github.com/d5/tengo/v2 v2.0.0
+require (
+	github.com/anishathalye/porcupine v1.3.0
+	github.com/d5/tengo/v2 v2.0.0
+)
 
 replace github.com/d5/tengo/v2 => /repo
